@@ -34,8 +34,10 @@ JOBS = [
          loop_contracts=False, **D),
     dict(name='c08_rle_decoder_init', entry='h_rle_init', enforce='carquet_rle_decoder_init', loop_contracts=False,
          defines=['CQV_MEMSET_EXACT=128'], unwindset=['memset.0:129'], **D),
+    # C11 (stream decoder agrees with the one-shot decoder under chunking): has_next() is true exactly while values are
+    # pending in the current run or input is left -- the statement every get_batch/skip loop relies on
     dict(name='c08_rle_decoder_has_next', entry='h_rle_has_next', enforce='carquet_rle_decoder_has_next',
-         loop_contracts=False, **D),
+         loop_contracts=False, **dict(D, props=['C08', 'C11'])),
     dict(name='c08_rle_decoder_get', replayer=FZ_DEC, entry='h_rle_get', enforce='carquet_rle_decoder_get', replace=DEC_HELPERS,
          loop_contracts=False, **D),
     dict(name='c08_rle_decoder_get_batch', replayer=FZ_DEC, entry='h_rle_get_batch', enforce='carquet_rle_decoder_get_batch',
